@@ -294,3 +294,19 @@ Proof.
   - unfold decode. destruct (negb (bytes_ok b)); [reflexivity|]. cbn [dec]. now rewrite Hs.
   - intros s. unfold decode_stream_t. destruct (negb (bytes_ok b)); [reflexivity|]. cbn [dec]. now rewrite Hs.
 Qed.
+
+(* ---- one hash per value ------------------------------------------------------------------------ *)
+(* the hash of a decoded object is a function of its value: two accepted inputs that
+   decode to equal values - e.g. the two spellings of a nil recipient - have the same
+   hash, whatever the hash function is *)
+Theorem hash_depends_on_value_only (H : bytes -> bytes) s b1 b2 v :
+  decode_t s b1 = Some v -> decode_t s b2 = Some v -> hash_of H s b1 = hash_of H s b2.
+Proof. intros H1 H2. unfold hash_of, hash_preimage. now rewrite H1, H2. Qed.
+
+(* and outside the lenient places it is the hash of the received bytes *)
+Theorem hash_of_received_bytes (H : bytes -> bytes) s b v : wf_schema s = true ->
+  decode_t s b = Some v -> lenient_bytes cenc cdec s b = false -> hash_of H s b = Some (H b).
+Proof.
+  intros Hwf Hd Hl. unfold hash_of, hash_preimage. rewrite Hd. cbn [bind].
+  pose proof (accept_canonical cenc cdec _ _ _ Hwf Hd Hl) as E. unfold encode_t. now rewrite E.
+Qed.
